@@ -39,6 +39,7 @@ type c13Item struct {
 	Size   float64
 	Deco   int
 	Box    float64 // text box width, 0: single line
+	Vert   int     `json:",omitempty"` // 1 vertical right-to-left, 2 vertical left-to-right writing mode
 	ImgW   int
 	ImgH   int
 	ImgK   int // 0 opaque RGBA, 1 with alpha, 2 gray, 3 NRGBA
@@ -151,6 +152,9 @@ func genC13(kind string) func(r *core.Rng) any {
 					it.Deco = core.PickI(r, []int{0, 0, 0, 1, 2, 3})
 					if r.Chance(0.3) {
 						it.Box = r.Range(20, 100)
+					}
+					if r.Chance(0.15) {
+						it.Vert = 1 + r.Intn(2)
 					}
 					it.Fill = col()
 				case pick < 9:
@@ -301,7 +305,12 @@ func c13Write(c *c13Case, o *core.Obs) ([]byte, bool) {
 					}
 					face := fam.Face(it.Size, args...)
 					var t *canvas.Text
-					if it.Box > 0 {
+					if it.Vert != 0 {
+						rt := canvas.NewRichText(face)
+						rt.SetWritingMode([]canvas.WritingMode{canvas.HorizontalTB, canvas.VerticalRL, canvas.VerticalLR}[it.Vert])
+						rt.WriteString(it.Text)
+						t = rt.ToText(0, 60+it.Box, canvas.Left, canvas.Top, 0, 0)
+					} else if it.Box > 0 {
 						t = canvas.NewTextBox(face, it.Text, it.Box, 0, canvas.Justify, canvas.Top, 0, 0)
 					} else {
 						t = canvas.NewTextLine(face, it.Text, canvas.Left)
@@ -459,7 +468,7 @@ func c13Str(c *c13Case) string {
 			case "path":
 				s += fmt.Sprintf(" path(%s fill %v grad %d stroke %v sgrad %d w %.3g dashes %v)", dstr(it.Data), it.Fill, it.Grad, it.Stroke, it.SGrad, it.Width, it.Dashes)
 			case "text":
-				s += fmt.Sprintf(" text(%q font %s size %.3g deco %d box %.3g colour %v)", it.Text, c13FontFiles[it.Font], it.Size, it.Deco, it.Box, it.Fill)
+				s += fmt.Sprintf(" text(%q font %s size %.3g deco %d box %.3g vertical %d colour %v)", it.Text, c13FontFiles[it.Font], it.Size, it.Deco, it.Box, it.Vert, it.Fill)
 			case "image":
 				s += fmt.Sprintf(" image(%dx%d kind %d)", it.ImgW, it.ImgH, it.ImgK)
 			case "link":
